@@ -281,6 +281,17 @@ var _ = deriveKeys(1) + deriveSort(1) + deriveEqual_(1) + deriveCompare_(1) + de
 			return items, nil
 		})
 	}
+	// user types named like the parameters and variables generated code introduces: inside a generated
+	// body such a name no longer denotes the type
+	for _, nm := range hostileTypeNames {
+		nm := nm
+		mk("typename-"+nm, func(u *pgen.Universe, s *pgen.Std) ([]pgen.PItem, map[string]string) {
+			t := u.DeclareAs("", nm, pgen.StructOf())
+			t.Under.Fields = []pgen.Field{pgen.F("A", pgen.Slice(pgen.B("int"))), pgen.F("P", pgen.Ptr(t)), pgen.F("M", pgen.Map(pgen.B("string"), pgen.Ptr(t))), pgen.F("L", pgen.Slice(t)), pgen.F("R", pgen.Array(2, pgen.Ptr(t)))}
+			return []pgen.PItem{{TItem: pgen.TItem{T: pgen.Ptr(t), Ops: []string{"equal", "equalc", "compare", "comparec", "hash", "clone", "gostring", "deepcopy"}}},
+				{TItem: pgen.TItem{T: pgen.Ptr(t), Ops: []string{"contains", "unique", "union", "intersect", "sort", "min", "max"}}, Form: "closure"}}, nil
+		})
+	}
 	mk("ptr-key", func(u *pgen.Universe, s *pgen.Std) ([]pgen.PItem, map[string]string) {
 		sk := u.DeclareAs("", "SK", pgen.StructOf(pgen.F("P", pgen.Ptr(pgen.B("int"))), pgen.F("N", pgen.B("int"))))
 		m := pgen.Map(sk, pgen.B("string"))
@@ -288,6 +299,8 @@ var _ = deriveKeys(1) + deriveSort(1) + deriveEqual_(1) + deriveCompare_(1) + de
 	})
 	return out
 }
+
+var hostileTypeNames = []string{"this", "that", "src", "dst", "buf", "h", "list", "keys", "v", "res", "out", "in"}
 
 // dedupe keeps the explicit derive calls of one package free of *duplicates* in goderive's sense
 // (two different names for the same plugin and mutually assignable argument types are rejected by
